@@ -108,7 +108,7 @@ Scalars(bits) ==
   { s \in { Zero, One, Two, FromNat(15), FromNat(16), FromNat(17), FromNat(31), FromNat(32), FromNat(33) }
           \cup UNION { Near(k, Js) : k \in { kk \in {32, 64, 128, 192, 255, 256, 384, 511} : kk < bits } }
           \cup { Sub(Pow2(bits), FromNat(j)) : j \in Js \ {0} }
-          \cup RFam \cup XFam \cup EigenFam \cup { H1, H2 }
+          \cup RFam \cup XFam \cup EigenFam \cup { H1, H2 } \cup { ModN(Pow2(256), RMod), ModN(Pow2(512), RMod) }
           \cup { ModPow2(Mul(Rnd(900 + i), Rnd(950 + i)), bits) : i \in 1..(IF Tier = "quick" THEN 2 ELSE 8) }
       : Lt(s, Pow2(bits)) }
 
